@@ -50,9 +50,11 @@ def _conc_child():
     return p
 
 
-def concrete_run(harness, params, inputs):
+def concrete_run(harness, params, inputs, fill=None):
     p = _conc_child()
     req = dict(module=_W['module_name'], harness=harness, params=params, inputs={k: hex(v) for k, v in inputs.items()})
+    if fill is not None:
+        req['fill'] = fill
     p.stdin.write(json.dumps(req) + '\n')
     p.stdin.flush()
     line = p.stdout.readline()
@@ -192,9 +194,17 @@ def run_instance(task):
                         inputs = None
                     if inputs is not None:
                         got = concrete_run(hname, params, inputs)
+                        used = None
+                        for fill in (1, 2):
+                            # inputs the harness creates after the point where the symbolic path ended are not in the model: as
+                            # zeros they may violate the harness's own assumptions - retry with pseudo-random values for them
+                            if not got.get('infeasible'):
+                                break
+                            got = concrete_run(hname, params, inputs, fill=fill)
+                            used = got.get('used_inputs')
                         if got.get('failures') or (got.get('exception') and not str(got.get('exception')).startswith('control:')):
                             lab = ('probe: ' + str(got['failures'][0])) if got.get('failures') else 'probe exception:' + str(got.get('exception'))
-                            res['violations'].append(dict(label=lab, inputs={k: hex(x) for k, x in inputs.items()}, known=None,
+                            res['violations'].append(dict(label=lab, inputs=(used if used else {k: hex(x) for k, x in inputs.items()}), known=None,
                                                           detail=str(got.get('detail') or '')[:300]))
             prefix = eng.next_prefix()
     except _Alarm:
